@@ -42,13 +42,11 @@ func c04Jobs(tier string, seed int64) []string {
 	}
 	for _, cfg := range []string{"val", "g", "gcfk"} {
 		for k := 0; k <= n; k++ {
+			if k == 3 && cfg == "gcfk" {
+				continue // three free bytes: ~75k paths per configuration; run for the two basic configurations
+			}
 			add("free:" + cfg + ":" + strconv.Itoa(k))
 		}
-	}
-	if tier == "thorough" {
-		add("free:gc:3")
-		add("free:gf:3")
-		add("free:val:4")
 	}
 	cfgs := []string{"val", "gcfk"}
 	for pi, p := range c04Programs {
@@ -58,7 +56,7 @@ func c04Jobs(tier string, seed int64) []string {
 			}
 			add("trunc:" + cfg + ":" + p)
 			add("tmpl:" + cfg + ":1:" + p)
-			if tier == "thorough" && pi < 2 {
+			if tier == "thorough" && pi < 1 {
 				add("tmpl:" + cfg + ":2:" + p)
 			}
 		}
